@@ -346,6 +346,56 @@ def rule_distinct_batches(F, R, fns):
     R.floor("R-C13-9", n, 4, "callers of nano::evaluate")
 
 
+def rule_step_order(F, R):
+    """R-C13-10: the steps are sorted with tuner_step_t's operator<, so "sorted by value, the first is the minimum observed" holds only if that
+    operator orders by value: whenever the two values differ (by however little) the result is `lhs.m_value < rhs.m_value`. A secondary key
+    may decide only under *exact* equality of the values; under a tolerance (`close(...)`, |a - b| < eps) two distinct values are ordered by
+    something else and the first step need not be the minimum."""
+    fs = [f for f in F.functions.values() if f.name == "operator<" and len(f.params) == 2 and all("tuner_step_t" in (p_.get("t") or "") for p_ in f.params) and f.body is not None]
+    if not fs:
+        raise AnalysisBroken("operator<(tuner_step_t, tuner_step_t) not found")
+    f = fs[0]
+    lhs, rhs = f.params[0]["d"], f.params[1]["d"]
+
+    def is_value_less(e):
+        e = skip(e)
+        if e["k"] == "bin" and e["op"] == "<":
+            a_, b_ = skip(e["c"][0]), skip(e["c"][1])
+            return a_["k"] == "mem" and b_["k"] == "mem" and a_["n"] == "m_value" and b_["n"] == "m_value" and ref_decl(a_["c"][0]) == lhs and ref_decl(b_["c"][0]) == rhs
+        return False
+
+    def exact_equal(c):
+        c = skip(c)
+        if c["k"] == "bin" and c["op"] == "==":
+            a_, b_ = skip(c["c"][0]), skip(c["c"][1])
+            return a_["k"] == "mem" and b_["k"] == "mem" and a_["n"] == "m_value" and b_["n"] == "m_value" and {ref_decl(a_["c"][0]), ref_decl(b_["c"][0])} == {lhs, rhs}
+        return False
+    ok, why = True, ""
+    nret = 0
+    for x in f.nodes():
+        if x["k"] != "return" or not x.get("c"):
+            continue
+        nret += 1
+        if is_value_less(x["c"][0]):
+            continue
+        # another key: only under exact equality of the values (an enclosing `if (lhs.m_value == rhs.m_value)`, then-branch)
+        guarded = False
+        child = x
+        for a_ in f.ancestors(x):
+            if a_["k"] == "if" and exact_equal(a_["c"][a_["r"].index("cond")]) and any(z is child for z in walk(a_["c"][a_["r"].index("then")])):
+                guarded = True
+            child = a_
+        e = skip(x["c"][0])
+        if e["k"] == "cond" and exact_equal(e["c"][0]) and is_value_less(e["c"][2]):
+            guarded = True
+        if not guarded:
+            conds = [pp(a_["c"][a_["r"].index("cond")])[:70] for a_ in f.ancestors(x) if a_["k"] == "if"]
+            ok, why = False, "`%s` is returned %s: two steps whose values differ can be ordered by something other than their values, the sorted steps are then not sorted " \
+                "by value and the first is not the minimum observed" % (pp(x["c"][0])[:70], ("under `%s`, which is not exact equality of the values" % conds[0]) if conds else "unconditionally")
+            break
+    R.check(ok and nret >= 1, "R-C13-10", "tuner_step_t operator<", f.loc(), "steps with different values are ordered by their values", why)
+
+
 def run(ctx):
     R = ctx.report
     tus = ctx.all_tus() if ctx.thorough else TUS
@@ -358,6 +408,7 @@ def run(ctx):
     rule_tune(F, R)
     rule_optimum(F, R)
     rule_distinct_batches(F, R, fns)
+    rule_step_order(F, R)
     from . import c11
     # what a (trial, fold) task stores is what the callback returned: (train|valid, errors|losses) -> its own slot and coordinates
     c11.rule_slots(F, R, rule="R-C13-8", with_evaluate=False)
